@@ -602,6 +602,17 @@ class Model:
         self.tick()
         return [self.monad(op, x) for x in a]
 
+    def range_of(self, key, v):
+        if isinstance(v, Fn):
+            raise Skip(key + ":function")
+        if is_int(v):
+            r = list(range(1 if key == "ɾ" else 0, v + 1))
+            if len(r) > MAX_LEN:
+                raise Skip("size:len")
+            return r
+        self.tick()
+        return [self.range_of(key, x) for x in v]
+
     def element(self, key, fr):
         if key in "+-*<>=":
             rhs, lhs = self.popn(fr, 2)
@@ -668,6 +679,63 @@ class Model:
             self.push(fr, top)
             self.push(fr, first)
             self.push(fr, second)
+        elif key in ("ɾ", "ʀ"):
+            self.push(fr, self.range_of(key, self.pop(fr)))
+        elif key in ("f", "h", "t", "Ṙ", "U", "∑", "G", "g"):
+            v = self.pop(fr)
+            if not isinstance(v, list):
+                raise Skip(key + ":non-list")  # numbers go through their digits
+            if has_fn(v):
+                raise Skip(key + ":function-items")
+            if key == "f":
+                self.push(fr, flatten(v))
+            elif key == "h":
+                self.push(fr, copy_value(v[0]) if v else 0)
+            elif key == "t":
+                self.push(fr, copy_value(v[-1]) if v else 0)
+            elif key == "Ṙ":
+                self.push(fr, [copy_value(x) for x in reversed(v)])
+            elif key == "U":
+                out = []
+                for x in v:
+                    if x not in out:
+                        out.append(copy_value(x))
+                self.push(fr, out)
+            elif key == "∑":
+                acc = None
+                for x in v:
+                    acc = x if acc is None else self.arith("+", acc, x)
+                self.push(fr, 0 if acc is None else copy_value(acc))
+            else:
+                flat = flatten(v)
+                if not flat:
+                    self.push(fr, [])
+                else:
+                    self.push(fr, max(flat) if key == "G" else min(flat))
+        elif key in ("J", "p"):
+            rhs, lhs = self.popn(fr, 2)
+            if key == "p":
+                lhs, rhs = rhs, lhs   # a.prepend(b) == merge(b, a)
+            if isinstance(lhs, Fn) or isinstance(rhs, Fn):
+                raise Skip(key + ":function")
+            if isinstance(lhs, list) and isinstance(rhs, list):
+                self.push(fr, copy_value(lhs) + copy_value(rhs))
+            elif isinstance(lhs, list):
+                self.push(fr, copy_value(lhs) + [rhs])
+            elif isinstance(rhs, list):
+                self.push(fr, [lhs] + copy_value(rhs))
+            else:
+                raise Skip(key + ":two-numbers")  # concatenates decimal digits
+        elif key == "c":
+            rhs, lhs = self.popn(fr, 2)
+            if has_fn(lhs) or has_fn(rhs):
+                raise Skip("c:function")
+            if isinstance(lhs, list):
+                self.push(fr, int(rhs in lhs))
+            elif isinstance(rhs, list):
+                self.push(fr, int(lhs in rhs))
+            else:
+                raise Skip("c:two-numbers")  # substring test on decimal digits
         elif key == ",":
             v = self.pop(fr)
             if has_fn(v):
@@ -715,6 +783,16 @@ class Model:
                 raise Skip("F:scalar")
         else:
             raise Skip("element:" + key)
+
+
+def flatten(v):
+    out = []
+    for x in v:
+        if isinstance(x, list):
+            out.extend(flatten(x))
+        else:
+            out.append(x)
+    return out
 
 
 def copy_trace(stack):
